@@ -129,6 +129,10 @@ func declaredCodecName(value interface{}) (name string, declared bool) {
 		}
 	}()
 	name = n.HessianCodecName()
+	if name == "" {
+		// an empty name declares nothing (and no name, list names included, may be empty)
+		return "", false
+	}
 	v := reflect.ValueOf(value)
 	if v.Kind() == reflect.Struct {
 		for i := 0; i < v.NumField(); i++ {
